@@ -268,10 +268,67 @@ def k_tree(ctx):
     ctx.check("nothing-else", all(p in [f[0] for f in files] for p in found), detail=repr(found))
 
 
+# ---- K4: bundling by time frequency (pandas Grouper) on a concrete tree, symbolic period -----------------
+DENSE = ["2019-12-31 21:00:00", "2019-12-31 23:30:00", "2020-01-01 00:00:00", "2020-01-01 00:30:00", "2020-01-01 13:00:00",
+         "2020-02-29 11:00:00", "2020-02-29 12:00:00", "2020-03-01 00:00:00"]
+FREQ_SECONDS = {"1D": 86400, "12h": 43200, "6h": 21600, "30min": 1800}
+
+
+def _freq_cases(tier):
+    c = [("y/m/d", "1D"), ("y/m/d", "12h"), ("flat", "6h")]
+    if tier == "thorough":
+        c += [("y/doy", "1D"), ("y/lit/m", "12h"), ("flat", "30min"), ("y", "1D")]
+    return c
+
+
+@harness("C01.freq-bundles", cases=_freq_cases, expect=lambda c: ["frequency-bundles-partition-the-found-sequence"])
+def k_freq(ctx):
+    """find(start, end, bundle=<frequency>) yields the files of find(start, end), in that order, cut where
+    floor(t0 / frequency) changes (frequencies that divide a day, so pandas' 'start_day' origin is midnight)."""
+    layout, freq = ctx.case
+    tmpl, cov = LAYOUTS[layout]
+    mfs = ModelFS(ctx, max_faults=0)
+    fset = make_fileset(ctx, tmpl, mfs, time_coverage=cov)
+    times = {}
+    for k, sdt in enumerate(DENSE):
+        t0 = _d(sdt)
+        name = fset.get_filename(t0)
+        mfs.files[name] = ("content", k)
+        times[name] = t0
+    with sym_env(ctx, WIN_TREE):
+        start = ST.sym_datetime(ctx, "start", WIN_TREE, lo=datetime(2019, 12, 1), hi=datetime(2020, 4, 1))
+        end = ST.sym_datetime(ctx, "end", WIN_TREE, lo=datetime(2019, 12, 1), hi=datetime(2020, 4, 1))
+        ctx.assume(start < end)
+        try:
+            plain = [fi.path for fi in fset.find(start, end)]
+        except F.NoFilesError:
+            plain = []
+        try:
+            bundles = [[fi.path for fi in b] for b in fset.find(start, end, bundle=freq)]
+        except F.NoFilesError:
+            bundles = []
+    tag = "frequency-bundles-partition-the-found-sequence"
+    flat = [p for b in bundles for p in b]
+    ctx.check(tag, flat == plain, detail="bundled %r plain %r" % (bundles, plain))
+    ctx.check(tag, all(len(b) > 0 for b in bundles), detail="empty bundle in %r" % (bundles,))
+    step = FREQ_SECONDS[freq]
+    epoch = datetime(1970, 1, 1)
+
+    def key(p):
+        return int((times[p] - epoch).total_seconds()) // step
+    want, last = [], None
+    for p in plain:
+        if key(p) != last:
+            want.append([])
+            last = key(p)
+        want[-1].append(p)
+    ctx.check(tag, bundles == want, detail="bundles %r expected %r" % (bundles, want))
+
+
 PLAN = {
-    "quick": {"harnesses": ["C01.per-file", "C01.bundles", "C01.tree"],
+    "quick": {"harnesses": ["C01.per-file", "C01.bundles", "C01.tree", "C01.freq-bundles"],
               "opts": {"query_timeout_ms": 10000, "chunk_paths": 40}},
-    "thorough": {"harnesses": ["C01.per-file", "C01.bundles", "C01.tree"],
+    "thorough": {"harnesses": ["C01.per-file", "C01.bundles", "C01.tree", "C01.freq-bundles"],
                  "opts": {"query_timeout_ms": 20000, "chunk_paths": 40}},
 }
 BOUNDS = {"quick": {"per-file decision": "flat template, n <= 2 files with arbitrary symbolic coverages (microsecond resolution), <= 1 symbolic "
@@ -280,10 +337,12 @@ BOUNDS = {"quick": {"per-file decision": "flat template, n <= 2 files with arbit
                     "directory pruning": "8 directory layouts (year/month/day, year/doy, year, year2/month/day/hour, user placeholder + year/doy, "
                                          "a literal directory between year and month, end fields, flat) x 8 concrete files placed at year / month / leap-day boundaries, file length <= one "
                                          "period of the finest directory level; every period [start, end) with microsecond bounds in 2019-12-01 .. 2020-04-01",
-                    "bundling": "n <= 3 symbolic files, integer bundle sizes 1, 2, 4, sorted and unsorted"},
+                    "bundling": "n <= 3 symbolic files, integer bundle sizes 1, 2, 4, sorted and unsorted; by time frequency (1D, 12h, 6h) on 8 concrete "
+                                "files (several per bundle, year / leap-day boundaries) in 2 layouts for every symbolic period"},
           "thorough": {"per-file decision": "adds list filters; n = 1 with 2 excluded periods under every filter; n = 2 with 2 excluded periods (no / white-list filter); n = 3 files without excluded periods (no / white-list / black-list filter) and with 1 excluded period (no filter)", "directory pruning": "all %d layouts (adds year-month/day, literal/year/doy, year/month/literal, year/literal/literal/month/day, name-literal/year, year/month/day/hour, ...)" % len(LAYOUTS),
-                       "bundling": "n = 4"}}
-OUTSIDE = ["time-frequency bundling (pandas Grouper)", "zip file systems", "to_dataframe", "instants outside the calendar window (in particular "
+                       "bundling": "n = 4; frequency bundling in 5 layouts, adds 30min"}}
+OUTSIDE = ["time-frequency bundling of files with symbolic times and frequencies that do not divide a day (pandas Grouper runs on the concrete "
+           "times of the tree's files; its origin then depends on the first file)", "zip file systems", "to_dataframe", "instants outside the calendar window (in particular "
            "datetime.min / year 1 look-back)", "files longer than one directory period (excluded by the property)",
            "file-name parsing inside the per-file kernel (coverages come from the info cache; parsing is C02)"]
 STUBS = ["ModelFS / ModelFSSpec for fsspec's LocalFileSystem (glob of one level, isfile, isdir)",
